@@ -398,6 +398,9 @@ COMMANDS = [
     ("stderr", "printf 'oops\\ttab\\r\\n' >&2", "", "oops\ttab\r\n"),
     ("both", "printf out; printf err >&2", "out", "err"),
     ("noop", ":", "", ""),
+    # long output with multi-byte characters on both streams (however the output is read, it is decoded as a whole)
+    ("long_unicode_output", "i=0; while [ $i -lt 900 ]; do printf 'Zeile %s: äöü€😀\\n' $i; printf 'Fehler %s: ßé\\n' $i >&2; i=$((i+1)); done",
+     "".join(f"Zeile {i}: äöü€😀\n" for i in range(900)), "".join(f"Fehler {i}: ßé\n" for i in range(900))),
     # content changes, size and modification time do not (cp -p / rsync -t / reproducible-build style)
     ("same_size_same_mtime", "for f in ./*; do if [ -f \"$f\" ] && [ -s \"$f\" ]; then cp -p \"$f\" ./.keep_mtime; "
                              "printf 'Z' | dd of=\"$f\" bs=1 count=1 conv=notrunc 2>/dev/null; touch -r ./.keep_mtime \"$f\"; "
